@@ -6,6 +6,8 @@ mod native;
 mod cmd_stages;
 mod cmd_fun2core;
 mod cmd_rt;
+mod cmd_check;
+mod cmd_check_gen;
 mod consts;
 mod pipe;
 mod cmd_genfun;
@@ -99,6 +101,7 @@ fn main() {
         "pm" => cmd_pm(num(2, 1), num(3, 100) as usize, &mut *out),
         "lin-show" => { cmd_lin::cmd_lin_show(num(2, 1)); return; }
         "lin" => cmd_lin::cmd_lin(num(2, 1), num(3, 100) as usize, &mut *out, args.get(5..).unwrap_or(&[])),
+        "check" => cmd_check::cmd_check(num(2, 1), num(3, 0) as usize, args.get(5..).unwrap_or(&[]), &mut *out),
         "stages" => cmd_stages::cmd_stages(num(2, 1), num(3, 0) as usize, args.get(5..).unwrap_or(&[]), &mut *out),
         "fun2core" => cmd_fun2core::cmd_fun2core(num(2, 1), num(3, 0) as usize, args.get(5..).unwrap_or(&[]), &mut *out),
         "rt" => cmd_rt::cmd_rt(num(2, 1), num(3, 100) as usize, &mut *out),
